@@ -156,7 +156,7 @@ func Gen(pr Profile) func(t *rapid.T) Scenario {
 				sc.File.Args = []recipe.Text{recipe.Text(local)}
 			}
 			// the local path itself and near misses join the referenced paths
-			cands := []string{local, local + "/", local + "x", "x" + local, strings.ToUpper(local), strings.ToLower(local), "v/" + local, local + "/sub", "vendor/" + local, "d.e/f/vendor/" + local, local + "/vendor/q"}
+			cands := []string{local, local + "/", local + "x", "x" + local, strings.ToUpper(local), strings.ToLower(local), "v/" + local, local + "/sub", "vendor/" + local, "d.e/f/vendor/" + local, local + "/vendor/q", local + ".v1", local + ".x"}
 			if i := strings.LastIndex(local, "/"); i > 0 {
 				cands = append(cands, local[:i], local[i+1:])
 			}
@@ -181,6 +181,14 @@ func Gen(pr Profile) func(t *rapid.T) Scenario {
 				// Qual("", x) on a NewFile file is a local reference
 				sc.Paths = append(sc.Paths, "")
 				seen[""] = true
+			}
+		}
+		if pr.Dots > 0 && rapid.IntRange(0, 3).Draw(t, "dottedtwin") == 2 {
+			// a path that continues one of the others behind a dot (gopkg.in/yaml and gopkg.in/yaml.v3)
+			base := rapid.SampledFrom(sc.Paths).Draw(t, "dottedof")
+			if v := base + rapid.SampledFrom([]string{".v1", ".v3", ".x", ".go"}).Draw(t, "dottedsuffix"); base != "" && base != "C" && !strings.HasSuffix(base, "/") && !seen[v] {
+				seen[v] = true
+				sc.Paths = append(sc.Paths, v)
 			}
 		}
 		if pr.Dots > 0 && rapid.IntRange(0, 3).Draw(t, "vendortwin") == 2 {
@@ -321,7 +329,7 @@ func Gen(pr Profile) func(t *rapid.T) Scenario {
 		}
 		if pr.Cgo && rapid.IntRange(0, 3).Draw(t, "preamble") == 0 {
 			// a cgo preamble, whether or not "C" is referenced or anonymous-imported
-			ops = append(ops, recipe.FileOp{Op: "CgoPreamble", Args: []recipe.Text{recipe.Text(rapid.SampledFrom([]string{"#include <stdio.h>", "#include <a.h>\n#include <b.h>", "// #include <raw.h>"}).Draw(t, "preambletext"))}})
+			ops = append(ops, recipe.FileOp{Op: "CgoPreamble", Args: []recipe.Text{recipe.Text(rapid.SampledFrom([]string{"#include <stdio.h>", "#include <a.h>\n#include <b.h>", "// #include <raw.h>", "\n#include <lead.h>\n", "\n#include <lead.h>"}).Draw(t, "preambletext"))}})
 		}
 		sc.File.Body = GenBody(t, sc.Paths, pr)
 		// paths that only occur inside pairs that render nothing may carry hints of every kind:
@@ -347,6 +355,18 @@ func Gen(pr Profile) func(t *rapid.T) Scenario {
 					}
 				}
 			})
+		}
+		if rapid.IntRange(0, 5).Draw(t, "sibling") == 2 {
+			// the caller's one names table, handed first to a sibling File (see Scenario.Sibling): this File's
+			// first hint is then an ImportNames call too
+			sc.Sibling = true
+			if len(ops) == 0 || ops[0].Op != "ImportNames" {
+				m := map[string]string{}
+				for j := rapid.IntRange(1, 5).Draw(t, "siblingtable"); j > 0; j-- {
+					m[fmt.Sprintf("unused.example/table/%d", j)] = rapid.SampledFrom(hintNames).Draw(t, "siblingname")
+				}
+				ops = append([]recipe.FileOp{{Op: "ImportNames", Map: m}}, ops...)
+			}
 		}
 		sc.File.Ops = ops
 		if rapid.IntRange(0, 24).Draw(t, "nobody") == 0 {
